@@ -137,13 +137,23 @@ class ArrayCase:
         self.scratch = scratch
         self.n = 0
 
-    def copy(self, tag):
+    def copy(self, tag, order=0):
+        """order: the lines of the configuration file in the order of the reference (0), with the parity lines reversed (1: e.g.
+        z-parity before 2-parity before parity), or with the whole file reversed (2); the reference accepts any order"""
         d = os.path.join(self.scratch, self.name, tag)
         # cp -a keeps hard links, symlinks and ns time stamps (shutil.copytree would split hard links)
         if subprocess.run(["cp", "-a", self.base, d]).returncode != 0:
             raise vlib.ToolFailure("cp -a failed")
+        lines = self.man["conf_template"].replace("ROOT", d).splitlines()
+        if order == 1:
+            idx = [i for i, l in enumerate(lines) if l.split(" ")[0].endswith("parity")]
+            rev = [lines[i] for i in reversed(idx)]
+            for i, l in zip(idx, rev):
+                lines[i] = l
+        elif order == 2:
+            lines = list(reversed(lines))
         with open(os.path.join(d, "snapraid.conf"), "w") as f:
-            f.write(self.man["conf_template"].replace("ROOT", d))
+            f.write("\n".join(lines) + "\n")
         return d
 
     def devices(self):
@@ -168,6 +178,12 @@ class ArrayCase:
                    "prev_hash": self.cs["prevhash"]["kind"] if self.cs["prevhash"] else "undefined",
                    "file_count": str(nfiles), "has_rehash": str(man["rehash_flagged_stripes"]),
                    "has_unsynced": "0", "has_bad": "0"}
+            if man.get("interrupted"):
+                # the reference left an unfinished sync: the recorded files are those of the content file, some stripes unsynced
+                del exp["has_unsynced"]
+                exp["file_count"] = str(sum(len(dd["files"]) for dd in self.proj["disks"].values()))
+                if str(summ.get("has_unsynced")) in ("0", "None"):
+                    raise Problem("load", "status reports no unsynced stripe for a reference array left with an unfinished sync", tail(r))
             for k, w in exp.items():
                 cnt[0] += 1
                 if str(summ.get(k)) != w:
@@ -188,6 +204,34 @@ class ArrayCase:
             if got_links != want_links:
                 raise Problem("load", "list: links differ from the reference state: " +
                               "; ".join(gl.diff_paths(want_links, got_links)[:4]), tail(r))
+            if man.get("interrupted"):
+                r = snap(self.binary, root, "check", "-a")
+                cnt[0] += 1
+                expect_rc0(r, "load", "check -a (hash only) of the reference array left with an unfinished sync")
+                r = snap(self.binary, root, "diff")
+                cnt[0] += 1
+                if r.rc != 2:
+                    raise Problem("load", "diff on a reference array left with an unfinished sync does not report it (rc %s, %r)"
+                                  % (r.rc, r.summary()), tail(r))
+                d = compare_data(root, man, cnt) + compare_parity(root, man, cnt)
+                if d:
+                    raise Problem("load", "status/list/check/diff modified the array: " + "; ".join(d[:4]))
+                self.compare_content(root, "load", cnt, with_inode=True)
+                # the current build completes the sync the reference had begun; afterwards everything verifies
+                r = snap(self.binary, root, "sync")
+                cnt[0] += 1
+                expect_rc0(r, "load", "sync completing the unfinished sync of the reference")
+                d = compare_data(root, man, cnt)
+                if d:
+                    raise Problem("load", "the completing sync modified data files: " + "; ".join(d[:4]))
+                r = snap(self.binary, root, "check")
+                cnt[0] += 1
+                expect_rc0(r, "load", "check after completing the unfinished sync of the reference")
+                r = snap(self.binary, root, "diff")
+                cnt[0] += 1
+                if r.rc != 0:
+                    raise Problem("load", "diff after completing the unfinished sync does not say equal (rc %s)" % r.rc, tail(r))
+                return cnt[0]
             r = snap(self.binary, root, "check")
             cnt[0] += 1
             expect_rc0(r, "load", "check of the untouched reference array (every file must verify)")
@@ -244,7 +288,7 @@ class ArrayCase:
             cnt[0] += 1
             expect_rc0(r, "rewrite", "test-rewrite (load and re-save the reference content)")
             self.compare_content(root, "rewrite", cnt, with_inode=True)
-            r = snap(self.binary, root, "check")
+            r = snap(self.binary, root, "check", *(["-a"] if self.man.get("interrupted") else []))
             cnt[0] += 1
             expect_rc0(r, "rewrite", "check after test-rewrite")
             d = compare_data(root, self.man, cnt) + compare_parity(root, self.man, cnt)
@@ -260,7 +304,7 @@ class ArrayCase:
         cnt = [0]
         man = self.man
         self.n += 1
-        root = self.copy(("rwfix-" if rewrite_first else "fix-") + "-".join(lost))
+        root = self.copy(("rwfix-" if rewrite_first else "fix-") + "-".join(lost), order=self.n % 3)
         try:
             if rewrite_first:
                 # recovery driven by a content file re-saved by the current build
@@ -413,6 +457,8 @@ def run(tier):
             items += sum(len(c.man["data"][dn]) for dn in c.man["disks"]) + sum(len(l) for l in c.man["parity"]) + 1
             jobs.append((c, "load", None))
             jobs.append((c, "rewrite", None))
+            if c.man.get("interrupted"):
+                continue               # recovery of an array with an unfinished sync is C05/C07's subject
             subs = loss_subsets(c, tier, rnd)
             for s in subs:
                 jobs.append((c, "fix", s))
